@@ -8,7 +8,7 @@ ENGINES = [
      "kind_free_text": "lock-state dataflow over the CFG, wait/notify extraction, predicate polarity tables"},
     {"name": "tlxir", "path": "tools/tlxir.cc", "serves_properties": ["C15"],
      "kind_free_text": "clang LibTooling extractor: typed AST with resolved callees, template instantiations, clang CFG -> JSON"},
-    {"name": "engine A (order abstraction / decision tables)", "path": "engine/dtable.py", "serves_properties": ["C15", "C09", "C05"],
+    {"name": "engine A (order abstraction / decision tables)", "path": "engine/dtable.py", "serves_properties": ["C15", "C09", "C05", "C01", "C02"],
      "kind_free_text": "comparator-network extraction + zero-one principle; decision tables over comparison atoms"},
 ]
 
@@ -180,6 +180,34 @@ CLAIMS["C04"] = dict(
           "distribute_finished touching bkt_ after the final notify; sample()/count_finished() re-reading parts_ after the last enqueue), ADD-BEFORE-ENQUEUE, HANDLE-PAIR, "
           "RMW-RESULT (incl. memory order), PHASE-ARM, COMPLETION-BARRIER, COPY-BACK. Memory-safety and hand-over conditions for every schedule and every tuning of the thresholds."),
     note=(TRUST + "Frozen table: functions running under run()'s anonymous handle. Not decided: sortedness and LCP values, full data-race freedom of the bucket arrays, termination; the ThreadPool is C10."),
+)
+
+CLAIMS["C01"] = dict(
+    level="other",
+    technique="static analysis: truth tables of the key predicates and of both in-node search branches over the user's less() (callee bodies inlined from the instantiated AST); decision tables over sibling/fill atoms for every underflow region with legality of the chosen merge/shift and its separator-slot argument; role resolution of the erase descents' neighbour bookkeeping; small-domain evaluation of the capacity predicates; forwarding/flag tables of the four front ends; twin agreement of the 16 iterator step functions",
+    text=("Decides structural necessary conditions, not the observational equality itself: KEYPRED-TABLE, SEARCH-TABLE (binary and linear branch of find_lower/"
+          "find_upper, leaf and inner instantiation, mean lower/upper bound), DESCENT-SEARCH (each lookup uses one search at every level and follows "
+          "childid[result]; equal_range = (lower, upper)), HIT-TEST, ITER-WALK-STOP (erase(iterator) may abandon the walk over a run of equal keys only "
+          "when the separator proves the key cannot follow), DESCENT-SIBLINGS, UNDERFLOW-LEGAL (all consistent null/few/same-parent situations x 4 regions: "
+          "exactly one legal action, correct argument order, parent and separator slot), NODE-CAPACITY (is_full/is_few/is_underflow fit the node's own "
+          "capacity for independent leaf/inner capacities: merge fits, donors keep the minimum), FRONTEND-FLAGS, FRONTEND-FORWARD, ITER-STEP-TWINS. "
+          "All for 8 tree instantiations (set/multiset/map/multimap x less/greater x default/small asymmetric traits); thorough adds three more capacity/"
+          "search-threshold/key-type configurations."),
+    note=(TRUST + "Assumed B+ tree shape facts used to prune impossible underflow situations are listed in the evidence. Not decided: returned iterator "
+          "positions and contents over operation histories, split/bulk-load arithmetic, copies; those are value-level."),
+)
+
+CLAIMS["C02"] = dict(
+    level="other",
+    technique="static analysis: who-may-call rules for node allocation/release with type/allocator/counter agreement per branch; CFG dominance (free before slot reuse, clear before allocator replacement, copy after); path tables for clear()/root collapse/separator maintenance; abstract execution of the leaf-chain splices on a finite alias model (symbolic successor/tail that may be null); field completeness of swap; discarded-result rule; the underflow decision tables and capacity predicates shared with C01",
+    text=("Decides structural necessary conditions of the invariants and of exact allocation: NODE-ALLOC-OWNER (allocate only in allocate_leaf/inner, release only in "
+          "free_node, node type = rebound allocator = counter per branch, fresh leaf has null links), FREE-ON-UNLINK, ROOT-COLLAPSE, CLEAR-RESET, CHILD-RANGE "
+          "(slotuse+1 children), ASSIGN-ORDER (old nodes are released through the allocator that produced them; copy after), SWAP-COMPLETE, SIZE-PAIR, "
+          "LEAFCHAIN-SPLICE (split, merge, copy, bulk load keep a consistent doubly linked chain incl. head/tail for null and non-null neighbours), "
+          "SEP-UPDATE (removing a leaf's largest key writes parent->slotkey[parentslot] or hands the key upwards in every situation), RESULT-KEPT, "
+          "UNDERFLOW-LEGAL, NODE-CAPACITY."),
+    note=(TRUST + "Not decided: balance, minimum fill and key order after each step of a history (value-level, what verify() checks at run time); exception safety of "
+          "element copies; element-range arithmetic of the split/shift/merge primitives beyond the separator-slot argument."),
 )
 
 NOT_APPLICABLE = {}
